@@ -167,6 +167,9 @@ func runControls(checkerDir string) ([]string, error) {
 	if !normalAfterFail("FlagBad") || normalAfterFail("FlagGood") {
 		return fail("explorer control: bad=%v good=%v", normalAfterFail("FlagBad"), normalAfterFail("FlagGood"))
 	}
+	if !normalAfterFail("FieldFlagBad") || normalAfterFail("FieldFlagGood") {
+		return fail("explorer control (struct fields): bad=%v good=%v", normalAfterFail("FieldFlagBad"), normalAfterFail("FieldFlagGood"))
+	}
 	fired = append(fired, "path-sensitive-explorer")
 	// all paths
 	guarded := func(name string) bool {
@@ -207,6 +210,27 @@ func runControls(checkerDir string) ([]string, error) {
 		return fail("phi-fact control: bad=%d good=%d", unproved("PhiBad"), unproved("PhiGood"))
 	}
 	fired = append(fired, "phi-facts")
+	// twin comparisons narrow merges
+	knowsParam := func(name string) bool {
+		gr := g(name)
+		fn := gr.Fn
+		q := fn.Params[len(fn.Params)-1]
+		for _, c := range gr.Calls(sp.Pkg.Path() + ".use2") {
+			for _, f := range gr.FactsAtInstr(c) {
+				if os.Getenv("VERIF_DBG") != "" {
+					fmt.Fprintf(os.Stderr, "%s: fact %v=%v nilof=%v\n", name, f.Cond, f.Val, f.NilOf)
+				}
+				if f.Cond == ssa.Value(q) && f.Val {
+					return true
+				}
+			}
+		}
+		return false
+	}
+	if !knowsParam("TwinGood") || knowsParam("TwinBad") {
+		return fail("merge-fact control: good=%v bad=%v", knowsParam("TwinGood"), knowsParam("TwinBad"))
+	}
+	fired = append(fired, "merge-facts")
 	// counted loops
 	rangeOf := func(name string) (int64, int64, string) {
 		gr := g(name)
@@ -225,13 +249,22 @@ func runControls(checkerDir string) ([]string, error) {
 	}
 	fired = append(fired, "counted-loops")
 	// the normaliser dissolves a function the reference list does not have
-	overlay, _, _ := inl.Normalize(pkgs, checkerDir, "verif/checker/fixtures/ctl", nil)
+	var overlay map[string][]byte
+	npkgs := pkgs
+	for round := 0; round < 4; round++ {
+		next, _, _ := inl.Normalize(npkgs, checkerDir, "verif/checker/fixtures/ctl", overlay)
+		if next == nil {
+			break
+		}
+		overlay = next
+		var err error
+		npkgs, err = packages.Load(&packages.Config{Mode: packages.LoadAllSyntax, Dir: checkerDir, Env: env, Overlay: overlay}, "./fixtures/ctl")
+		if err != nil || len(npkgs) != 1 || len(npkgs[0].Errors) > 0 {
+			return fail("normaliser control: rewritten fixture does not load: %v %v", err, npkgs[0].Errors)
+		}
+	}
 	if overlay == nil {
 		return fail("normaliser control: nothing was rewritten")
-	}
-	npkgs, err := packages.Load(&packages.Config{Mode: packages.LoadAllSyntax, Dir: checkerDir, Env: env, Overlay: overlay}, "./fixtures/ctl")
-	if err != nil || len(npkgs) != 1 || len(npkgs[0].Errors) > 0 {
-		return fail("normaliser control: rewritten fixture does not load: %v %v", err, npkgs[0].Errors)
 	}
 	nprog, nsps := ssautil.AllPackages(npkgs, ssa.InstantiateGenerics)
 	nprog.Build()
@@ -247,6 +280,21 @@ func runControls(checkerDir string) ([]string, error) {
 	}
 	if !okThrough {
 		return fail("normaliser control: facts do not carry through the inlined helper")
+	}
+	// a loop over a constant table is written out: no loop left, both offsets tested as constants
+	tg := ssax.NewGraph(nsps[0].Func("InlTable"), nr)
+	consts := map[int64]bool{}
+	loops := false
+	tg.Instrs(func(i ssa.Instruction) {
+		if ia, ok := i.(*ssa.IndexAddr); ok {
+			if k, isK := ssax.ConstInt(ia.Index); isK {
+				consts[k] = true
+			}
+		}
+	})
+	loops = len(loopsOf(tg)) > 0
+	if !consts[1] || !consts[3] || loops || len(tg.Calls(sp.Pkg.Path()+".inlLayout")) != 0 {
+		return fail("normaliser control: table loop not written out (constant offsets seen %v, loop left %v)", consts, loops)
 	}
 	fired = append(fired, "normaliser")
 	return fired, nil
